@@ -60,6 +60,7 @@ type scen struct {
 	baseVal *tbin.Val
 	ks      []int
 	note    string
+	prime   []byte // if set: converted by the same converter right before the message, outcome ignored
 }
 
 type caseDesc struct {
@@ -200,6 +201,11 @@ func (s *scen) run() core.Result {
 	src := append([]byte{}, msg...)
 	var out []byte
 	var cerr error
+	if s.prime != nil {
+		pctx, _ := mkctx()
+		core.Catch(func() { cv.Do(pctx, desc, append([]byte{}, s.prime...)) })
+		r.Key += fmt.Sprintf("|after:%x", s.prime)
+	}
 	ctx, gb := mkctx()
 	pi := core.Catch(func() { out, cerr = cv.Do(ctx, desc, src) })
 	r.Count("conversions", 1)
